@@ -262,6 +262,28 @@ pub fn install_quiet_panic_hook() {
     }));
 }
 
+/// Hook for the cargo-fuzz targets (libfuzzer-sys installs a hook that aborts on *every* panic, also
+/// the documented ones the checks observe through `guard`): a panic whose message starts with
+/// "VIOLATION" is printed and aborts the process (libFuzzer saves the input); every other panic is
+/// recorded for `guard` exactly as in the proptest drivers.
+pub fn install_fuzz_panic_hook() {
+    std::panic::set_hook(Box::new(|info| {
+        let msg = if let Some(s) = info.payload().downcast_ref::<&str>() {
+            s.to_string()
+        } else if let Some(s) = info.payload().downcast_ref::<String>() {
+            s.clone()
+        } else {
+            "<non-string panic>".to_string()
+        };
+        let loc = info.location().map(|l| format!("{}:{}", l.file(), l.line())).unwrap_or_default();
+        if msg.starts_with("VIOLATION") {
+            eprintln!("{msg}");
+            std::process::abort();
+        }
+        LAST_PANIC.with(|p| *p.borrow_mut() = Some(format!("{msg} @ {loc}")));
+    }));
+}
+
 /// Run `f`, turning a panic into Err(message @ location).
 pub fn guard<T>(f: impl FnOnce() -> T) -> Result<T, String> {
     match catch_unwind(AssertUnwindSafe(f)) {
